@@ -1386,7 +1386,12 @@ func (cs *ConsensusState) defaultSetProposal(proposal *types.Proposal) error {
 	}
 
 	cs.Proposal = proposal
-	cs.ProposalBlockParts = types.NewPartSetFromHeader(proposal.BlockPartsHeader)
+	// The parts of this very block may already be here (collected after a polka or commit for
+	// it was seen before the proposal arrived): do not throw them away, ProposalBlock was
+	// decoded from them.
+	if !cs.ProposalBlockParts.HasHeader(proposal.BlockPartsHeader) {
+		cs.ProposalBlockParts = types.NewPartSetFromHeader(proposal.BlockPartsHeader)
+	}
 	return nil
 }
 
